@@ -25,6 +25,7 @@ import (
 	"github.com/ReneBoedker/algobra/finitefield/extfield"
 	"github.com/ReneBoedker/algobra/finitefield/ff"
 	"github.com/ReneBoedker/algobra/finitefield/primefield"
+	"github.com/ReneBoedker/algobra/univariate"
 )
 
 var kinds = []struct {
@@ -299,6 +300,53 @@ func decElem(f ff.Field, s string) ff.Element {
 	panic("decElem")
 }
 
+func hexOf(s string) string {
+	if s == "" {
+		return "EMPTY"
+	}
+	return hex.EncodeToString([]byte(s))
+}
+
+// runSetVar: a sequence of variable-name setter calls on one fresh ring / field
+func runSetVar(t []string) string {
+	res := func(err error) string {
+		if err != nil {
+			return "err " + kindOf(err)
+		}
+		return "ok"
+	}
+	var outs []string
+	switch t[0] {
+	case "u":
+		f, _ := primefield.Define(7)
+		r := univariate.DefRing(f)
+		for _, h := range t[1:] {
+			outs = append(outs, res(r.SetVarName(unhex(h))))
+		}
+		return strings.Join(outs, " ") + " ; " + hexOf(r.VarName()) + " ; " + hexOf(r.PolynomialFromUnsigned([]uint{1, 0, 3}).String())
+	case "bin":
+		f, _ := binfield.Define(8)
+		for _, h := range t[1:] {
+			outs = append(outs, res(f.SetVarName(unhex(h))))
+		}
+		return strings.Join(outs, " ") + " ; " + hexOf(f.VarName()) + " ; " + hexOf(f.ElementFromBits(6).String())
+	case "b":
+		f, _ := primefield.Define(7)
+		r := bivariate.DefRing(f, bivariate.Lex(true))
+		for _, h := range t[1:] {
+			ps := strings.SplitN(h, ",", 2)
+			if len(ps) < 2 {
+				ps = append(ps, "")
+			}
+			outs = append(outs, res(r.SetVarNames([2]string{unhex(ps[0]), unhex(ps[1])})))
+		}
+		v := r.VarNames()
+		p := r.PolynomialFromUnsigned(map[[2]uint]uint{{2, 1}: 3, {0, 1}: 1, {0, 0}: 5})
+		return strings.Join(outs, " ") + " ; " + hexOf(v[0]) + "," + hexOf(v[1]) + " ; " + hexOf(p.String())
+	}
+	return "bad-op"
+}
+
 func runShape(t []string) string {
 	f := defineField(t[0])
 	switch t[1] {
@@ -373,6 +421,8 @@ func handle(line string) string {
 	case "order":
 		o := parseOrder(t[1])
 		return strconv.Itoa(o([2]uint{u(t[2]), u(t[3])}, [2]uint{u(t[4]), u(t[5])}))
+	case "setvar":
+		return runSetVar(t[1:])
 	case "shape":
 		return runShape(t[1:])
 	case "hist":
